@@ -172,7 +172,7 @@ def _usercall_inventory(fx, col):
 
 
 prop('C18', 'panics in user code leave the container consistent',
-     [_usercall_inventory, L.rule_ledger_unwind, T.rule_txn_closed, R.rule_fast_window, R.rule_cover_all, R.rule_pay_before_release, L.rule_bypass, T.rule_writers_raii, A.rule_lock_poison, A.rule_lock_no_user_code],
+     [_usercall_inventory, L.rule_ledger_unwind, T.rule_txn_closed, R.rule_fast_window, R.rule_cover_all, R.rule_pay_before_release, L.rule_bypass, T.rule_writers_raii, A.rule_lock_poison, A.rule_lock_no_user_code, L.rule_return_slot],
      'Decides: the complete list of user-code call sites reachable from the API (trait methods on type parameters, closure '
      'parameters, drops of generic values, RefCnt::dec) and, for each, that no raw (non-RAII) reference count is held '
      'across it: the ledger evaluated along every unwind edge must reach `resume` with balance 0 (LEDGER-UNWIND; direct '
